@@ -1,5 +1,5 @@
 /-
-  C15 — Validated policies cannot fail with type errors.   PARTIAL: proved on a fragment of the validator.
+  C15 — Validated policies cannot fail with type errors.   PARTIAL: proved for the transcribed type checker on a stated domain.
 
   Full statement (NOT a theorem of the unchanged code, see the counterexamples below):
     theorem C15_typeOf_sound : typeOf false Γ e caps = .ok (τ, caps') → EnvOK Γ env → CapsHold env caps →
@@ -7,13 +7,29 @@
 
   What is proved (`C15_typeOf_sound_partial`): the statement for `typeOf true`, i.e. for the Go algorithm
   (`typeOf false`, transcribed from typechecker.go and tied to `validate.New(..).Policy` by the `validate`
-  correspondence op) restricted to the domain `dom = true`.  `typeOf true` is `typeOf false` plus these extra rejections:
+  correspondence op) restricted to the domain `dom = true`, under the explicit action hypothesis `ActionsOK`.
+  `typeOf true` is `typeOf false` plus these extra rejections:
     (D4) permissive mode: the record LUB fails instead of silently dropping an attribute with incompatible types
          (`C15_lub_drop_counterexample`);
     (D5) extension constructors take a string literal also in permissive mode (non-literal arguments would need
          "the parsers only raise extension errors", not proved);
     (D6) `context == context` / `context != context` are not folded to True / False (would need reflexivity of
-         `Value.beq` on arbitrary records, not proved).
+         `Value.beq` on arbitrary records, not proved);
+    (D7) `hasTag` / `getTag` on an entity LUB of which SOME but not all elements declare tags is rejected (permissive
+         mode only — strict mode has no such LUBs; the Go code types such a `hasTag` False: `C15_hasTag_mixed_counterexample`).
+  Hypotheses on the request and the store:
+    `EnvOK Γ env` — the request conforms (principal / resource of the environment's types, the environment's action, context
+         of the declared record type) and every entity PRESENT in the store conforms to the declaration of its type
+         (`EntityOK`: required attributes present with values of their types, optional attributes well-typed if present, no
+         undeclared attribute; tag values of the declared tag type, no tags if none is declared; the entity type of every
+         parent is one of the `memberOf` types of the child's type).  Entities may be ABSENT from the store.
+         For ACTION entities (their types have no declaration) `EntityOK.parents` asks the parents to have the action's own
+         entity type; a store with an action group of ANOTHER action type (another namespace) is accepted by
+         `Validator.Entities` but breaks the static False of `typeOfIn`: `C15_action_cross_namespace_counterexample`.
+    `ActionsOK Γ env` — the environment's action is a schema action; every schema action that has parents in the schema
+         is present in the store with (at least) those parents; the parents of a present schema action are schema actions
+         above it in the schema's hierarchy.  Needed because `typeOfIn` folds `action in …` from the SCHEMA's action
+         hierarchy while evaluation consults the store; without it: `C15_action_absent_counterexample`.
   Three former domain restrictions are gone (repaired in cedar-go, `fix:` commits):
     (D2) attribute names in `has` / `.` had to contain no '.': capability keys were dotted renderings of access paths
          and collided otherwise (`context["a.b"] has x` licensed `context.a.b.x`).  Keys are now the access paths
@@ -24,71 +40,80 @@
          `1 < datetime("2020-01-01")`; the old witness is a regression `example` below);
     (D3) unknown extension functions are rejected — `C15_unknown_function_rejected` (the unrepaired code accepted
          them with ZERO arguments and gave them no type; old witness `foo()` below).
-  Constructs covered: Bool/Long/String/EntityUID literals; principal/action/resource/context with the schema-given
-  entity types and context record type; `&& || ! if` with True/False singleton types, short-circuiting (dead branches are
-  only checked for entity references) and capability propagation; `== !=` with same-variable, literal and
-  disjoint-entity-type folding and the strict LUB test; `< <= > >=`; `+ - *`; unary minus; `has` and `.` on RECORD types with
-  required/optional attributes and `has`-capabilities (incl. nested paths `context.a.b` and attribute names of any
-  shape, `context["a.b"]`); set literals (LUB of element types,
-  strict and permissive, incl. records); record literals (duplicate keys: last wins); `contains containsAll containsAny isEmpty`;
+  Constructs covered — every node kind of the expression language: Bool/Long/String/EntityUID literals;
+  principal/action/resource/context with the schema-given entity types and context record type; `&& || ! if` with
+  True/False singleton types, short-circuiting (dead branches are only checked for entity references) and capability
+  propagation; `== !=` with same-variable, literal and disjoint-entity-type folding and the strict LUB test; `< <= > >=`;
+  `+ - *`; unary minus; `has` and `.` on RECORD and on ENTITY types (entity LUBs: the attribute must be declared by every
+  element, its type is the LUB of the declared types) with required/optional attributes and `has`-capabilities keyed by
+  structural access paths (incl. nested paths `principal.mgr.name`, `context.a.b` and attribute names of any shape);
+  `is` with its True/False folding from the static entity LUB; `in` (right operand an entity or a set of entities) with the
+  static False from the schema's entity-type hierarchy (`isEntityDescendant` / `anyEntityDescendantOf`: depth-first search
+  with a visited set) and the True/False folding of `action in …` from the schema's action hierarchy; `is … in` (no
+  folding in the Go code); `hasTag` (False when no element of the LUB declares tags, tag capabilities for string-literal
+  keys) and `getTag` (tag type of the LUB, needs the tag capability); set literals (LUB of element types, strict and
+  permissive, incl. records); record literals (duplicate keys: last wins); `contains containsAll containsAny isEmpty`;
   `like`; all 22 extension functions (constructors on string literals).  Outside the model (`typeOf` answers
-  `unsupported`, never `ok`): `has`/`.` on entity types, `in`, `is`, `is..in`, `getTag`, `hasTag`.
+  `unsupported`, never `ok`): set / record / extension VALUES as literals (the parser never produces them).
   Both validation modes (Γ.strict arbitrary).  Conclusion (`Sound`): evaluation yields a value of the computed type —
   and if that value is `true` the output capabilities hold — or fails with overflow / absent entity / an extension error;
-  never with a type, arity, unknown-function, missing-attribute or missing-tag error.
+  never with a type, arity, unknown-function, missing-attribute or missing-tag error — in particular no `attr` / `tag`
+  error on an entity PRESENT in the store.
 -/
-import CedarGoProofs.Lemmas.C15
+import CedarGoProofs.Lemmas.C15EntIn
 namespace CedarGo
 open CedarGo.Validate
 
 mutual
 /-- **Soundness of the validator's type checker on its proved domain** (see the file header). -/
-theorem C15_typeOf_sound_partial (Γ : TEnv) (env : Env) (hΓ : EnvOK Γ env) :
+theorem C15_typeOf_sound_partial (Γ : TEnv) (env : Env) (hΓ : EnvOK Γ env) (hA : ActionsOK Γ env) :
     ∀ (e : Expr) (caps : Caps) (τ : Ty) (caps' : Caps), CapsHold env caps →
       typeOf true Γ e caps = .ok (τ, caps') → Sound env τ caps' (eval e env)
-  | .lit v, _, _, _, hc, h => sound_lit hc h
+  | .lit v, _, _, _, hc, h => sound_lit hΓ hc h
   | .var x, _, _, _, hc, h => sound_var hΓ hc h
-  | .unop .not e, caps, _, _, hc, h => sound_not (fun τ c' h' => C15_typeOf_sound_partial Γ env hΓ e caps τ c' hc h') hc h
-  | .unop .neg e, caps, _, _, hc, h => sound_neg (fun τ c' h' => C15_typeOf_sound_partial Γ env hΓ e caps τ c' hc h') hc h
-  | .unop .isEmpty e, caps, _, _, hc, h => sound_isEmpty (fun τ c' h' => C15_typeOf_sound_partial Γ env hΓ e caps τ c' hc h') hc h
-  | .like e p, caps, _, _, hc, h => sound_like (fun τ c' h' => C15_typeOf_sound_partial Γ env hΓ e caps τ c' hc h') hc h
-  | .binop .and l r, _, _, _, hc, h => sound_and (C15_typeOf_sound_partial Γ env hΓ l) (C15_typeOf_sound_partial Γ env hΓ r) hc h
-  | .binop .or l r, _, _, _, hc, h => sound_or (C15_typeOf_sound_partial Γ env hΓ l) (C15_typeOf_sound_partial Γ env hΓ r) hc h
+  | .unop .not e, caps, _, _, hc, h => sound_not (fun τ c' h' => C15_typeOf_sound_partial Γ env hΓ hA e caps τ c' hc h') hc h
+  | .unop .neg e, caps, _, _, hc, h => sound_neg (fun τ c' h' => C15_typeOf_sound_partial Γ env hΓ hA e caps τ c' hc h') hc h
+  | .unop .isEmpty e, caps, _, _, hc, h => sound_isEmpty (fun τ c' h' => C15_typeOf_sound_partial Γ env hΓ hA e caps τ c' hc h') hc h
+  | .like e p, caps, _, _, hc, h => sound_like (fun τ c' h' => C15_typeOf_sound_partial Γ env hΓ hA e caps τ c' hc h') hc h
+  | .binop .and l r, _, _, _, hc, h => sound_and (C15_typeOf_sound_partial Γ env hΓ hA l) (C15_typeOf_sound_partial Γ env hΓ hA r) hc h
+  | .binop .or l r, _, _, _, hc, h => sound_or (C15_typeOf_sound_partial Γ env hΓ hA l) (C15_typeOf_sound_partial Γ env hΓ hA r) hc h
   | .ite c t e, _, _, _, hc, h =>
-    sound_ite (C15_typeOf_sound_partial Γ env hΓ c) (C15_typeOf_sound_partial Γ env hΓ t) (C15_typeOf_sound_partial Γ env hΓ e) hc h
+    sound_ite (C15_typeOf_sound_partial Γ env hΓ hA c) (C15_typeOf_sound_partial Γ env hΓ hA t) (C15_typeOf_sound_partial Γ env hΓ hA e) hc h
   | .binop .eq l r, _, _, _, hc, h =>
-    sound_eq (neg := false) hΓ (C15_typeOf_sound_partial Γ env hΓ l) (C15_typeOf_sound_partial Γ env hΓ r) hc h
+    sound_eq (neg := false) hΓ (C15_typeOf_sound_partial Γ env hΓ hA l) (C15_typeOf_sound_partial Γ env hΓ hA r) hc h
   | .binop .ne l r, _, _, _, hc, h =>
-    sound_eq (neg := true) hΓ (C15_typeOf_sound_partial Γ env hΓ l) (C15_typeOf_sound_partial Γ env hΓ r) hc h
-  | .binop .lt l r, _, _, _, hc, h => sound_cmp (.inl rfl) (C15_typeOf_sound_partial Γ env hΓ l) (C15_typeOf_sound_partial Γ env hΓ r) hc h
-  | .binop .le l r, _, _, _, hc, h => sound_cmp (.inr (.inl rfl)) (C15_typeOf_sound_partial Γ env hΓ l) (C15_typeOf_sound_partial Γ env hΓ r) hc h
-  | .binop .gt l r, _, _, _, hc, h => sound_cmp (.inr (.inr (.inl rfl))) (C15_typeOf_sound_partial Γ env hΓ l) (C15_typeOf_sound_partial Γ env hΓ r) hc h
-  | .binop .ge l r, _, _, _, hc, h => sound_cmp (.inr (.inr (.inr rfl))) (C15_typeOf_sound_partial Γ env hΓ l) (C15_typeOf_sound_partial Γ env hΓ r) hc h
-  | .binop .add l r, _, _, _, hc, h => sound_arith (.inl rfl) (C15_typeOf_sound_partial Γ env hΓ l) (C15_typeOf_sound_partial Γ env hΓ r) hc h
-  | .binop .sub l r, _, _, _, hc, h => sound_arith (.inr (.inl rfl)) (C15_typeOf_sound_partial Γ env hΓ l) (C15_typeOf_sound_partial Γ env hΓ r) hc h
-  | .binop .mul l r, _, _, _, hc, h => sound_arith (.inr (.inr rfl)) (C15_typeOf_sound_partial Γ env hΓ l) (C15_typeOf_sound_partial Γ env hΓ r) hc h
-  | .binop .contains l r, _, _, _, hc, h => sound_contains (C15_typeOf_sound_partial Γ env hΓ l) (C15_typeOf_sound_partial Γ env hΓ r) hc h
-  | .binop .containsAll l r, _, _, _, hc, h => sound_containsAA (.inl rfl) (C15_typeOf_sound_partial Γ env hΓ l) (C15_typeOf_sound_partial Γ env hΓ r) hc h
-  | .binop .containsAny l r, _, _, _, hc, h => sound_containsAA (.inr rfl) (C15_typeOf_sound_partial Γ env hΓ l) (C15_typeOf_sound_partial Γ env hΓ r) hc h
-  | .has e a, _, _, _, hc, h => sound_has (C15_typeOf_sound_partial Γ env hΓ e) hc h
-  | .access e a, _, _, _, hc, h => sound_access (C15_typeOf_sound_partial Γ env hΓ e) hc h
-  | .set es, _, _, _, hc, h => sound_set (allIH_mem (C15_sound_list Γ env hΓ es)) hc h
-  | .record kes, _, _, _, hc, h => sound_record (allIHKV_mem (C15_sound_kvs Γ env hΓ kes)) hc h
-  | .call fn args, _, _, _, hc, h => sound_call (allIH_mem (C15_sound_list Γ env hΓ args)) hc h
-  -- outside the model: `typeOf` never answers `ok`
-  | .binop .in_ _ _, _, _, _, _, h => by simp [typeOf] at h
-  | .binop .getTag _ _, _, _, _, _, h => by simp [typeOf] at h
-  | .binop .hasTag _ _, _, _, _, _, h => by simp [typeOf] at h
-  | .is _ _, _, _, _, _, h => by simp [typeOf] at h
-  | .isIn _ _ _, _, _, _, _, h => by simp [typeOf] at h
+    sound_eq (neg := true) hΓ (C15_typeOf_sound_partial Γ env hΓ hA l) (C15_typeOf_sound_partial Γ env hΓ hA r) hc h
+  | .binop .lt l r, _, _, _, hc, h => sound_cmp (.inl rfl) (C15_typeOf_sound_partial Γ env hΓ hA l) (C15_typeOf_sound_partial Γ env hΓ hA r) hc h
+  | .binop .le l r, _, _, _, hc, h => sound_cmp (.inr (.inl rfl)) (C15_typeOf_sound_partial Γ env hΓ hA l) (C15_typeOf_sound_partial Γ env hΓ hA r) hc h
+  | .binop .gt l r, _, _, _, hc, h => sound_cmp (.inr (.inr (.inl rfl))) (C15_typeOf_sound_partial Γ env hΓ hA l) (C15_typeOf_sound_partial Γ env hΓ hA r) hc h
+  | .binop .ge l r, _, _, _, hc, h => sound_cmp (.inr (.inr (.inr rfl))) (C15_typeOf_sound_partial Γ env hΓ hA l) (C15_typeOf_sound_partial Γ env hΓ hA r) hc h
+  | .binop .add l r, _, _, _, hc, h => sound_arith (.inl rfl) (C15_typeOf_sound_partial Γ env hΓ hA l) (C15_typeOf_sound_partial Γ env hΓ hA r) hc h
+  | .binop .sub l r, _, _, _, hc, h => sound_arith (.inr (.inl rfl)) (C15_typeOf_sound_partial Γ env hΓ hA l) (C15_typeOf_sound_partial Γ env hΓ hA r) hc h
+  | .binop .mul l r, _, _, _, hc, h => sound_arith (.inr (.inr rfl)) (C15_typeOf_sound_partial Γ env hΓ hA l) (C15_typeOf_sound_partial Γ env hΓ hA r) hc h
+  | .binop .contains l r, _, _, _, hc, h => sound_contains (C15_typeOf_sound_partial Γ env hΓ hA l) (C15_typeOf_sound_partial Γ env hΓ hA r) hc h
+  | .binop .containsAll l r, _, _, _, hc, h => sound_containsAA (.inl rfl) (C15_typeOf_sound_partial Γ env hΓ hA l) (C15_typeOf_sound_partial Γ env hΓ hA r) hc h
+  | .binop .containsAny l r, _, _, _, hc, h => sound_containsAA (.inr rfl) (C15_typeOf_sound_partial Γ env hΓ hA l) (C15_typeOf_sound_partial Γ env hΓ hA r) hc h
+  -- `has` / `.` on records AND entities (capabilities keyed by access paths; an absent entity: `has` false, `.` fails with `entity`)
+  | .has e a, _, _, _, hc, h => sound_has hΓ (C15_typeOf_sound_partial Γ env hΓ hA e) hc h
+  | .access e a, _, _, _, hc, h => sound_access hΓ (C15_typeOf_sound_partial Γ env hΓ hA e) hc h
+  | .set es, _, _, _, hc, h => sound_set (allIH_mem (C15_sound_list Γ env hΓ hA es)) hc h
+  | .record kes, _, _, _, hc, h => sound_record (allIHKV_mem (C15_sound_kvs Γ env hΓ hA kes)) hc h
+  | .call fn args, _, _, _, hc, h => sound_call (allIH_mem (C15_sound_list Γ env hΓ hA args)) hc h
+  -- `is` with its True/False folding; `in` with the entity-type-hierarchy and the action-hierarchy foldings; `is … in`
+  | .is e ty, _, _, _, hc, h => sound_is (C15_typeOf_sound_partial Γ env hΓ hA e) hc h
+  | .binop .in_ l r, _, _, _, hc, h => sound_in hΓ hA (C15_typeOf_sound_partial Γ env hΓ hA l) (C15_typeOf_sound_partial Γ env hΓ hA r) hc h
+  | .isIn e ty r, _, _, _, hc, h => sound_isIn (C15_typeOf_sound_partial Γ env hΓ hA e) (C15_typeOf_sound_partial Γ env hΓ hA r) hc h
+  -- tags, with tag capabilities
+  | .binop .hasTag l r, _, _, _, hc, h => sound_hasTag hΓ (C15_typeOf_sound_partial Γ env hΓ hA l) (C15_typeOf_sound_partial Γ env hΓ hA r) hc h
+  | .binop .getTag l r, _, _, _, hc, h => sound_getTag hΓ (C15_typeOf_sound_partial Γ env hΓ hA l) (C15_typeOf_sound_partial Γ env hΓ hA r) hc h
 /-- the same for every element of a set literal / argument list -/
-theorem C15_sound_list (Γ : TEnv) (env : Env) (hΓ : EnvOK Γ env) : ∀ (es : List Expr), AllIH Γ env es
+theorem C15_sound_list (Γ : TEnv) (env : Env) (hΓ : EnvOK Γ env) (hA : ActionsOK Γ env) : ∀ (es : List Expr), AllIH Γ env es
   | [] => trivial
-  | e :: es => ⟨C15_typeOf_sound_partial Γ env hΓ e, C15_sound_list Γ env hΓ es⟩
+  | e :: es => ⟨C15_typeOf_sound_partial Γ env hΓ hA e, C15_sound_list Γ env hΓ hA es⟩
 /-- … and for every entry of a record literal -/
-theorem C15_sound_kvs (Γ : TEnv) (env : Env) (hΓ : EnvOK Γ env) : ∀ (kes : List (String × Expr)), AllIHKV Γ env kes
+theorem C15_sound_kvs (Γ : TEnv) (env : Env) (hΓ : EnvOK Γ env) (hA : ActionsOK Γ env) : ∀ (kes : List (String × Expr)), AllIHKV Γ env kes
   | [] => trivial
-  | (_, e) :: kes => ⟨C15_typeOf_sound_partial Γ env hΓ e, C15_sound_kvs Γ env hΓ kes⟩
+  | (_, e) :: kes => ⟨C15_typeOf_sound_partial Γ env hΓ hA e, C15_sound_kvs Γ env hΓ hA kes⟩
 end
 
 
@@ -102,7 +127,7 @@ theorem C15_dom_accept_is_go_accept (Γ : TEnv) (e : Expr) (caps : Caps) (res : 
 
 /-- Corollary at the level `typecheckConditions` works at: a condition body the (domain-restricted) checker accepts in
     environment Γ evaluates, on every request/store that conforms to Γ, to a Boolean or fails with an allowed error. -/
-theorem C15_condition_sound_partial (Γ : TEnv) (env : Env) (hΓ : EnvOK Γ env) (body : Expr)
+theorem C15_condition_sound_partial (Γ : TEnv) (env : Env) (hΓ : EnvOK Γ env) (hA : ActionsOK Γ env) (body : Expr)
     (h : condOK true Γ body = .ok true) :
     (∃ b, eval body env = .ok (.bool b)) ∨ (∃ k, eval body env = .error k ∧ Allowed k) := by
   unfold condOK at h
@@ -110,7 +135,7 @@ theorem C15_condition_sound_partial (Γ : TEnv) (env : Env) (hΓ : EnvOK Γ env)
   · simp at h
   · simp at h
   · rename_i t c ht
-    have hs := (C15_typeOf_sound_partial Γ env hΓ body [] t c (capsHold_nil env) ht).2
+    have hs := (C15_typeOf_sound_partial Γ env hΓ hA body [] t c (capsHold_nil env) ht).2
     simp only [Except.ok.injEq, Bool.or_eq_true] at h
     cases hr : eval body env with
     | error k => rw [hr] at hs; exact .inr ⟨k, rfl, hs⟩
@@ -146,11 +171,17 @@ def c15Env : Env where
 
 /-- the request conforms to the environment -/
 theorem c15Env_ok (strict : Bool) : EnvOK (c15Γ strict) c15Env := by
-  refine ⟨⟨"a", rfl⟩, ⟨"view", rfl⟩, ⟨"d", rfl⟩, ⟨_, rfl, ?_⟩⟩
+  refine ⟨⟨"a", rfl⟩, rfl, ⟨"d", rfl⟩, ⟨_, rfl, ?_⟩, by cases strict <;> decide, by intro uid d h; simp [c15Env, Entities.get] at h⟩
   refine hasTy_record_cons (HasTy.long _) (hasTy_record_skip ?_ (by decide))
   refine hasTy_record_cons ?_ (hasTy_record_cons ?_ hasTy_record_nil)
   · exact hasTy_record_cons (HasTy.long _) hasTy_record_nil
   · exact hasTy_record_cons (hasTy_record_skip hasTy_record_nil (by decide)) hasTy_record_nil
+
+/-- the schema has one action without parents and the store is empty: the action hypothesis holds trivially -/
+theorem c15Env_actions (strict : Bool) : ActionsOK (c15Γ strict) c15Env := by
+  refine ⟨by simp [c15Γ], ?_, ?_⟩
+  · intro u p hp; simp [actionParentsOf, c15Γ] at hp
+  · intro u _ d hg; simp [c15Env, Entities.get] at hg
 
 instance c15DecEqCondRes : DecidableEq (Except TErr Bool)
   | .ok a, .ok b => if h : a = b then isTrue (by rw [h]) else isFalse (by intro h'; cases h'; exact h rfl)
@@ -274,7 +305,7 @@ example : condOK false (c15Γ true) c15Coll = .ok false ∧ condOK false (c15Γ 
   refine ⟨?_, ?_, ?_, ?_, ?_, ?_⟩ <;> decide +kernel
 
 example : (∃ b, eval c15CollGood c15Env = .ok (.bool b)) ∨ (∃ k, eval c15CollGood c15Env = .error k ∧ Allowed k) :=
-  C15_condition_sound_partial (c15Γ true) c15Env (c15Env_ok true) c15CollGood (by decide +kernel)
+  C15_condition_sound_partial (c15Γ true) c15Env (c15Env_ok true) (c15Env_actions true) c15CollGood (by decide +kernel)
 
 /-- `(if principal == principal … )`-free version: `(if context.n > 0 then {a: 1} else {a: "s"}) has a && !5` -/
 def c15Lub : Expr :=
@@ -288,6 +319,372 @@ theorem C15_lub_drop_counterexample :
     EnvOK (c15Γ false) c15Env ∧ condOK false (c15Γ false) c15Lub = .ok true ∧ eval c15Lub c15Env = .error .type ∧
     condOK false (c15Γ true) c15Lub = .ok false :=
   ⟨c15Env_ok false, by decide +kernel, isErr_eq (by decide +kernel), by decide +kernel⟩
+
+/-! ## Entities: a schema with attributes, tags, memberOf and an action group; a conforming store
+
+  schema: `entity Group; entity User in [Group] {name: String, age?: Long, mgr?: User} tags Long;
+           entity Doc {owner: User}; action grp; action view in [grp] appliesTo {principal: User, resource: Doc, context: {n: Long}}`
+  store:  User::"a" (in Group::"g", name "n", age 30, no mgr, tag k = 1), Group::"g", Doc::"d" (owner User::"a"),
+          Action::"view" (in Action::"grp"), Action::"grp";  User::"ghost" is ABSENT.
+  request: principal User::"a", action Action::"view", resource Doc::"d", context {n: 3}. -/
+
+def c15ΓE (strict : Bool) : TEnv where
+  principalType := "User"
+  action := ("Action", "view")
+  resourceType := "Doc"
+  context := [("n", .long, true)]
+  entityTypes := ["User", "Group", "Doc"]
+  actions := [("Action", "view"), ("Action", "grp")]
+  strict := strict
+  entityDecls := [("User", ⟨[("name", .string, true), ("age", .long, false), ("mgr", .entity ["User"], false)], some .long, ["Group"]⟩),
+                  ("Group", ⟨[], none, []⟩),
+                  ("Doc", ⟨[("owner", .entity ["User"], true)], none, []⟩)]
+  actionParents := [(("Action", "view"), [("Action", "grp")]), (("Action", "grp"), [])]
+
+def c15Ents : Entities :=
+  [(("User", "a"), ⟨[("Group", "g")], [("age", .long 30), ("name", .str "n")], [("k", .long 1)]⟩),
+   (("Group", "g"), ⟨[], [], []⟩),
+   (("Doc", "d"), ⟨[], [("owner", .entity "User" "a")], []⟩)]
+
+def c15ActionEnts : Entities :=
+  [(("Action", "view"), ⟨[("Action", "grp")], [], []⟩), (("Action", "grp"), ⟨[], [], []⟩)]
+
+def c15EnvE : Env where
+  entities := c15Ents ++ c15ActionEnts
+  principal := .entity "User" "a"
+  action := .entity "Action" "view"
+  resource := .entity "Doc" "d"
+  context := .record [("n", .long 3)]
+
+/-- the same request with a store that LACKS the action entities (`Validator.Entities` accepts it) -/
+def c15EnvNoAct : Env := { c15EnvE with entities := c15Ents }
+
+theorem c15ΓE_decl_user (strict : Bool) : declOf (c15ΓE strict) "User" =
+    ⟨[("name", .string, true), ("age", .long, false), ("mgr", .entity ["User"], false)], some .long, ["Group"]⟩ := by
+  simp [declOf, c15ΓE]
+theorem c15ΓE_decl_group (strict : Bool) : declOf (c15ΓE strict) "Group" = ⟨[], none, []⟩ := by simp [declOf, c15ΓE, List.lookup]
+theorem c15ΓE_decl_doc (strict : Bool) : declOf (c15ΓE strict) "Doc" = ⟨[("owner", .entity ["User"], true)], none, []⟩ := by
+  simp [declOf, c15ΓE, List.lookup]
+theorem c15ΓE_decl_action (strict : Bool) : declOf (c15ΓE strict) "Action" = ⟨[], none, []⟩ := by simp [declOf, c15ΓE, List.lookup]
+
+/-- the three non-action entities conform to their declarations -/
+theorem c15Ents_ok (strict : Bool) (uid : UID) (d : EntityData) (h : c15Ents.get uid = some d) : EntityOK (c15ΓE strict) uid d := by
+  simp only [c15Ents, Entities.get] at h
+  split at h
+  · rename_i hk
+    have := (beq_iff_eq.mp hk).symm; subst this
+    simp only [Option.some.injEq] at h; subst h
+    refine ⟨?_, ?_, ?_⟩
+    · rw [c15ΓE_decl_user]
+      -- name: String (required), age?: Long present, mgr?: User absent
+      refine HasTy.record ?_ ?_ ?_
+      · intro k v t req hkv hl
+        simp only [kvGet] at hkv
+        split at hkv
+        · rename_i hk'; have : k = "age" := by simpa using hk'
+          subst this; simp [lookupAttr] at hl; obtain ⟨rfl, _⟩ := hl
+          simp only [Option.some.injEq] at hkv; subst hkv; exact HasTy.long _
+        · split at hkv
+          · rename_i _ hk'; have : k = "name" := by simpa using hk'
+            subst this; simp [lookupAttr] at hl; obtain ⟨rfl, _⟩ := hl
+            simp only [Option.some.injEq] at hkv; subst hkv; exact HasTy.str _
+          · simp at hkv
+      · intro k v hkv
+        simp only [kvGet] at hkv
+        split at hkv
+        · rename_i hk'; have : k = "age" := by simpa using hk'
+          subst this; simp [lookupAttr]
+        · split at hkv
+          · rename_i _ hk'; have : k = "name" := by simpa using hk'
+            subst this; simp [lookupAttr]
+          · simp at hkv
+      · intro k t hl
+        simp only [lookupAttr] at hl
+        split at hl
+        · rename_i hk'; have : k = "name" := by simpa using hk'
+          subst this; simp [kvGet]
+        · split at hl
+          · simp at hl
+          · split at hl
+            · simp at hl
+            · simp at hl
+    · rw [c15ΓE_decl_user]
+      intro k v hkv
+      simp only [kvGet] at hkv
+      split at hkv
+      · simp only [Option.some.injEq] at hkv; subst hkv; exact ⟨.long, rfl, HasTy.long _⟩
+      · simp at hkv
+    · rw [c15ΓE_decl_user]
+      intro p hp
+      simp only [List.mem_cons, List.not_mem_nil, or_false] at hp
+      subst hp; exact .inl (by simp)
+  · split at h
+    · rename_i _ hk
+      have := (beq_iff_eq.mp hk).symm; subst this
+      simp only [Option.some.injEq] at h; subst h
+      refine ⟨?_, ?_, ?_⟩
+      · rw [c15ΓE_decl_group]; exact hasTy_record_nil
+      · intro k v hkv; simp [kvGet] at hkv
+      · intro p hp; cases hp
+    · split at h
+      · rename_i _ _ hk
+        have := (beq_iff_eq.mp hk).symm; subst this
+        simp only [Option.some.injEq] at h; subst h
+        refine ⟨?_, ?_, ?_⟩
+        · rw [c15ΓE_decl_doc]
+          exact hasTy_record_cons (HasTy.entity (by simp) (by decide)) hasTy_record_nil
+        · intro k v hkv; simp [kvGet] at hkv
+        · intro p hp; cases hp
+      · simp at h
+
+theorem entities_get_append (a b : Entities) (u : UID) :
+    (a ++ b).get u = match a.get u with | some d => some d | none => b.get u := by
+  induction a with
+  | nil => simp [Entities.get]
+  | cons x xs ih =>
+    obtain ⟨k, d⟩ := x
+    simp only [List.cons_append, Entities.get]
+    split
+    · rfl
+    · exact ih
+
+/-- the action entities: no attributes, no tags, parents of the action's own entity type -/
+theorem c15ActionEnts_ok (strict : Bool) (uid : UID) (d : EntityData) (h : c15ActionEnts.get uid = some d) :
+    EntityOK (c15ΓE strict) uid d := by
+  simp only [c15ActionEnts, Entities.get] at h
+  split at h
+  · rename_i hk
+    have := (beq_iff_eq.mp hk).symm; subst this
+    simp only [Option.some.injEq] at h; subst h
+    refine ⟨?_, ?_, ?_⟩
+    · rw [c15ΓE_decl_action]; exact hasTy_record_nil
+    · intro k v hkv; simp [kvGet] at hkv
+    · intro p hp
+      simp only [List.mem_cons, List.not_mem_nil, or_false] at hp
+      subst hp; exact .inr ⟨by decide, rfl⟩
+  · split at h
+    · rename_i _ hk
+      have := (beq_iff_eq.mp hk).symm; subst this
+      simp only [Option.some.injEq] at h; subst h
+      refine ⟨?_, ?_, ?_⟩
+      · rw [c15ΓE_decl_action]; exact hasTy_record_nil
+      · intro k v hkv; simp [kvGet] at hkv
+      · intro p hp; cases hp
+    · simp at h
+
+theorem c15Ctx_ok : HasTy (.record [("n", .long 3)]) (.record [("n", .long, true)]) :=
+  hasTy_record_cons (HasTy.long _) hasTy_record_nil
+
+/-- request and store conform -/
+theorem c15EnvE_ok (strict : Bool) : EnvOK (c15ΓE strict) c15EnvE := by
+  refine ⟨⟨"a", rfl⟩, rfl, ⟨"d", rfl⟩, ⟨_, rfl, c15Ctx_ok⟩, by cases strict <;> decide, ?_⟩
+  intro uid d h
+  simp only [c15EnvE, entities_get_append] at h
+  cases h1 : c15Ents.get uid with
+  | some d1 => simp only [h1, Option.some.injEq] at h; subst h; exact c15Ents_ok strict uid d1 h1
+  | none => simp only [h1] at h; exact c15ActionEnts_ok strict uid d h
+
+/-- … also without the action entities -/
+theorem c15EnvNoAct_ok (strict : Bool) : EnvOK (c15ΓE strict) c15EnvNoAct :=
+  ⟨⟨"a", rfl⟩, rfl, ⟨"d", rfl⟩, ⟨_, rfl, c15Ctx_ok⟩, by cases strict <;> decide, fun uid d h => c15Ents_ok strict uid d h⟩
+
+theorem c15ΓE_parents (strict : Bool) (u p : UID) (h : p ∈ actionParentsOf (c15ΓE strict) u) :
+    u = ("Action", "view") ∧ p = ("Action", "grp") := by
+  simp only [actionParentsOf, c15ΓE, List.lookup] at h
+  split at h
+  · rename_i ps hl
+    split at hl
+    · rename_i hk
+      simp only [Option.some.injEq] at hl; subst hl
+      simp only [List.mem_cons, List.not_mem_nil, or_false] at h
+      exact ⟨beq_iff_eq.mp hk, h⟩
+    · split at hl
+      · simp only [Option.some.injEq] at hl; subst hl; cases h
+      · simp at hl
+  · cases h
+
+/-- the store holds the schema's action entities with the schema's parents -/
+theorem c15EnvE_actions (strict : Bool) : ActionsOK (c15ΓE strict) c15EnvE := by
+  refine ⟨by simp [c15ΓE], ?_, ?_⟩
+  · intro u p hp
+    obtain ⟨rfl, rfl⟩ := c15ΓE_parents strict u p hp
+    exact ⟨⟨[("Action", "grp")], [], []⟩, by simp [c15EnvE, c15Ents, c15ActionEnts, Entities.get], by simp⟩
+  · intro u hu d hg p hp
+    simp only [c15EnvE, entities_get_append] at hg
+    have hu' : u = ("Action", "view") ∨ u = ("Action", "grp") := by simpa [c15ΓE] using hu
+    rcases hu' with rfl | rfl
+    · have : d = ⟨[("Action", "grp")], [], []⟩ := by
+        have h0 : (c15Ents ++ c15ActionEnts).get ("Action", "view") = some ⟨[("Action", "grp")], [], []⟩ := by
+          simp [c15Ents, c15ActionEnts, Entities.get]
+        rw [entities_get_append] at h0; rw [h0] at hg; exact (Option.some.inj hg).symm
+      subst this
+      simp only [List.mem_cons, List.not_mem_nil, or_false] at hp; subst hp
+      exact ⟨by simp [c15ΓE], Schema.Reaches.step (by simp [actionParentsOf, c15ΓE])⟩
+    · have : d = ⟨[], [], []⟩ := by
+        have h0 : (c15Ents ++ c15ActionEnts).get ("Action", "grp") = some ⟨[], [], []⟩ := by
+          simp [c15Ents, c15ActionEnts, Entities.get]
+        rw [entities_get_append] at h0; rw [h0] at hg; exact (Option.some.inj hg).symm
+      subst this; cases hp
+
+/-- `principal has age && principal.age > 18 && principal.hasTag("k") && principal.getTag("k") == 1
+     && principal in Group::"g" && principal is User in Group::"g" && resource.owner.name like "n"
+     && principal is User && action in Action::"grp" && !(principal in Doc::"d")
+     && !(principal has mgr && principal.mgr.name == "x") && User::"ghost" has name == false` -/
+def c15GoodE : Expr :=
+  .binop .and (.has (.var .principal) "age")
+  (.binop .and (.binop .gt (.access (.var .principal) "age") (.lit (.long 18)))
+  (.binop .and (.binop .hasTag (.var .principal) (.lit (.str "k")))
+  (.binop .and (.binop .eq (.binop .getTag (.var .principal) (.lit (.str "k"))) (.lit (.long 1)))
+  (.binop .and (.binop .in_ (.var .principal) (.lit (.entity "Group" "g")))
+  (.binop .and (.isIn (.var .principal) "User" (.lit (.entity "Group" "g")))
+  (.binop .and (.like (.access (.access (.var .resource) "owner") "name") [⟨false, [110]⟩])
+  (.binop .and (.is (.var .principal) "User")
+  (.binop .and (.binop .in_ (.var .action) (.lit (.entity "Action" "grp")))
+  (.binop .and (.unop .not (.binop .in_ (.var .principal) (.lit (.entity "Doc" "d"))))
+  (.binop .and (.unop .not (.binop .and (.has (.var .principal) "mgr")
+      (.binop .eq (.access (.access (.var .principal) "mgr") "name") (.lit (.str "x")))))
+    (.binop .eq (.has (.lit (.entity "User" "ghost")) "name") (.lit (.bool false)))))))))))))
+
+example : condOK true (c15ΓE true) c15GoodE = .ok true ∧ condOK true (c15ΓE false) c15GoodE = .ok true ∧
+    condOK false (c15ΓE true) c15GoodE = .ok true := by
+  refine ⟨?_, ?_, ?_⟩ <;> decide +kernel
+
+/-- the soundness theorem applies to it (entity attributes, tags, `in`, `is`, `is in`, the folded action `in`) … -/
+example : (∃ b, eval c15GoodE c15EnvE = .ok (.bool b)) ∨ (∃ k, eval c15GoodE c15EnvE = .error k ∧ Allowed k) :=
+  C15_condition_sound_partial (c15ΓE true) c15EnvE (c15EnvE_ok true) (c15EnvE_actions true) c15GoodE (by decide +kernel)
+
+/-- … and it evaluates to `true` on the conforming store -/
+example : eval c15GoodE c15EnvE = .ok (.bool true) := by
+  have h : (match eval c15GoodE c15EnvE with | .ok (.bool true) => true | _ => false) = true := by decide +kernel
+  revert h
+  cases eval c15GoodE c15EnvE with
+  | error k => simp
+  | ok v => cases v <;> simp; rename_i b; cases b <;> simp
+
+/-- `principal.mgr.name`: the optional attribute `mgr` of an ENTITY needs a `has` guard — rejected without it and with a
+    guard for another attribute; `getTag` without a `hasTag` guard is rejected -/
+example : condOK false (c15ΓE true) (.binop .eq (.access (.access (.var .principal) "mgr") "name") (.lit (.str "x"))) = .ok false ∧
+    condOK false (c15ΓE true) (.binop .and (.has (.var .principal) "age")
+      (.binop .eq (.access (.access (.var .principal) "mgr") "name") (.lit (.str "x")))) = .ok false ∧
+    condOK false (c15ΓE true) (.binop .eq (.binop .getTag (.var .principal) (.lit (.str "k"))) (.lit (.long 1))) = .ok false := by
+  refine ⟨?_, ?_, ?_⟩ <;> decide +kernel
+
+theorem lookup_none_of_not_mem {β : Type} (t : String) : ∀ (l : List (String × β)), t ∉ l.map (·.1) → l.lookup t = none
+  | [], _ => rfl
+  | (k, v) :: l, h => by
+    simp only [List.map_cons, List.mem_cons, not_or] at h
+    have hk : (t == k) = false := by simpa using h.1
+    simp only [List.lookup, hk]
+    exact lookup_none_of_not_mem t l h.2
+
+/-- **The model's entity-hierarchy search always answers**: `isEntityDescendant` (depth-first search with a visited set,
+    fuel = number of declared entity types + 1) never runs out of fuel, on cyclic `memberOf` declarations either
+    (`Schema.descVisFuel_total`, C16) — so the static folding of `in` never makes the model answer `unsupported`. -/
+theorem C15_isEntityDescendant_total (Γ : TEnv) (c a : String) : ∃ b, isEntityDescendant Γ c a = some b := by
+  unfold isEntityDescendant
+  have hU : ∀ t, t ∉ Γ.entityDecls.map (·.1) → entityParentsOf Γ t = [] := by
+    intro t ht
+    simp only [entityParentsOf, declOf, lookup_none_of_not_mem t _ ht]
+  have hlt : Schema.visMissing (Γ.entityDecls.map (·.1)) [] < Γ.entityDecls.length + 1 := by
+    unfold Schema.visMissing
+    have := List.length_filter_le (fun x => !([] : List String).contains x) (Γ.entityDecls.map (·.1))
+    simp only [List.length_map] at this
+    omega
+  obtain ⟨b, vis', h, _⟩ := Schema.descVisFuel_total (entityParentsOf Γ) (Γ.entityDecls.map (·.1)) hU a
+    (Γ.entityDecls.length + 1) c [] hlt
+  exact ⟨b, by rw [h]; rfl⟩
+
+example : isEntityDescendant (c15ΓE true) "User" "Group" = some true ∧ isEntityDescendant (c15ΓE true) "Group" "User" = some false := by
+  constructor <;> decide +kernel
+
+/-- **In a conforming store, reachability between entities implies descendant-ness of their types**: if `x` reaches `y`
+    through parent links of entities PRESENT in the store, then the entity type of `x` equals that of `y` or reaches it
+    through the schema's `memberOf` declarations.  What store conformance says for this is `EntityOK.parents`: the
+    entity type of each parent of a present entity is one of the `ParentTypes` of the child's type (for an action entity:
+    the action's own entity type).  Together with `C03_entityInOne_correct` (`in` = reachability) this is what makes the
+    static False of `typeOfIn` sound. -/
+theorem C15_store_reach_type_descendant (Γ : TEnv) (env : Env) (hΓ : EnvOK Γ env) (x y : UID)
+    (h : Reach env.entities x y) : x.1 = y.1 ∨ Schema.Reaches (entityParentsOf Γ) x.1 y.1 :=
+  reach_types hΓ h
+
+example : Reach c15EnvE.entities ("User", "a") ("Group", "g") :=
+  (C03_entityInOne_correct _ _ _).mp (by decide +kernel)
+
+/-- `if action in Action::"grp" then true else 1 + "a" == 2` -/
+def c15ActIn : Expr :=
+  .ite (.binop .in_ (.var .action) (.lit (.entity "Action" "grp"))) (.lit (.bool true))
+    (.binop .eq (.binop .add (.lit (.long 1)) (.lit (.str "a"))) (.lit (.long 2)))
+
+/-- **Unsound without the action hypothesis** (finding `action-entity-absent-from-store`): `action in Action::"grp"` is
+    folded to True from the SCHEMA's action hierarchy, the else branch is never type-checked; on a store that conforms
+    (`EnvOK`: `Validator.Entities` accepts it) but does not contain the action entities (`¬ ActionsOK`) the test
+    evaluates to false and the else branch fails with a TYPE error.  Both modes, also inside the domain `dom = true`.
+    With the action entities in the store the policy evaluates to true. -/
+theorem C15_action_absent_counterexample :
+    EnvOK (c15ΓE true) c15EnvNoAct ∧ ¬ ActionsOK (c15ΓE true) c15EnvNoAct ∧
+    condOK true (c15ΓE true) c15ActIn = .ok true ∧ condOK true (c15ΓE false) c15ActIn = .ok true ∧
+    condOK false (c15ΓE true) c15ActIn = .ok true ∧
+    eval c15ActIn c15EnvNoAct = .error .type ∧ isErr .type (eval c15ActIn c15EnvE) = false := by
+  refine ⟨c15EnvNoAct_ok true, ?_, by decide +kernel, by decide +kernel, by decide +kernel, isErr_eq (by decide +kernel), by decide +kernel⟩
+  intro hA
+  obtain ⟨d, hg, _⟩ := hA.present ("Action", "view") ("Action", "grp") (by simp [actionParentsOf, c15ΓE])
+  have : c15EnvNoAct.entities.get ("Action", "view") = none := by decide +kernel
+  rw [this] at hg; cases hg
+
+/-- `if (if context.n > 0 then principal else resource).hasTag("k") then 1 + "a" == 2 else true` -/
+def c15MixedTag : Expr :=
+  .ite (.binop .hasTag (.ite (.binop .gt (.access (.var .context) "n") (.lit (.long 0))) (.var .principal) (.var .resource)) (.lit (.str "k")))
+    (.binop .eq (.binop .add (.lit (.long 1)) (.lit (.str "a"))) (.lit (.long 2))) (.lit (.bool true))
+
+/-- **Unsound (D7), permissive mode** (finding `hastag-lub-mixed-tags`): `hasTag` on an entity LUB of which only SOME
+    elements declare tags (`User` does, `Doc` does not) is typed False (`entityHasTags` demands tags on EVERY element),
+    although it is true for a `User` carrying the tag; the then branch is never type-checked and fails with a TYPE error
+    on a conforming request and store.  Strict mode rejects the LUB of unrelated entity types; `dom = true` rejects. -/
+theorem C15_hasTag_mixed_counterexample :
+    EnvOK (c15ΓE false) c15EnvE ∧ ActionsOK (c15ΓE false) c15EnvE ∧
+    condOK false (c15ΓE false) c15MixedTag = .ok true ∧ eval c15MixedTag c15EnvE = .error .type ∧
+    condOK false (c15ΓE true) c15MixedTag = .ok false ∧ condOK true (c15ΓE false) c15MixedTag = .ok false :=
+  ⟨c15EnvE_ok false, c15EnvE_actions false, by decide +kernel, isErr_eq (by decide +kernel), by decide +kernel, by decide +kernel⟩
+
+/-- schema with an action group in ANOTHER namespace: `action grp; namespace NS { action view in [Action::"grp"] appliesTo … }` -/
+def c15ΓX (strict : Bool) : TEnv :=
+  { c15ΓE strict with
+    action := ("NS::Action", "view")
+    actions := [("NS::Action", "view"), ("Action", "grp")]
+    actionParents := [(("NS::Action", "view"), [("Action", "grp")]), (("Action", "grp"), [])] }
+
+def c15EnvX : Env :=
+  { c15EnvE with
+    entities := c15Ents ++ [(("NS::Action", "view"), ⟨[("Action", "grp")], [], []⟩), (("Action", "grp"), ⟨[], [], []⟩)]
+    action := .entity "NS::Action" "view" }
+
+/-- `if (if context.n > 0 then action else action) in Action::"grp" then 1 + "a" == 2 else true` -/
+def c15CrossNs : Expr :=
+  .ite (.binop .in_ (.ite (.binop .gt (.access (.var .context) "n") (.lit (.long 0))) (.var .action) (.var .action))
+      (.lit (.entity "Action" "grp")))
+    (.binop .eq (.binop .add (.lit (.long 1)) (.lit (.str "a"))) (.lit (.long 2))) (.lit (.bool true))
+
+/-- **Why `EntityOK.parents` asks the parents of an ACTION entity to have the action's own entity type** (finding
+    `in-action-type-cross-namespace`): when an action has a parent of another action entity type (a group declared in
+    another namespace) and the left operand of `in` is not syntactically `action` or an action literal, `typeOfIn`
+    consults the ENTITY-type hierarchy — in which action types have no `ParentTypes` — and folds the test to False; it
+    evaluates to true on the store `Validator.Entities` accepts (action entities with the schema's parents), and the
+    then branch, never type-checked, fails with a TYPE error.  Both modes, inside `dom = true`.  The store violates
+    `EntityOK.parents` (and nothing else of `EnvOK`). -/
+theorem C15_action_cross_namespace_counterexample :
+    condOK true (c15ΓX true) c15CrossNs = .ok true ∧ condOK true (c15ΓX false) c15CrossNs = .ok true ∧
+    condOK false (c15ΓX true) c15CrossNs = .ok true ∧
+    eval c15CrossNs c15EnvX = .error .type ∧
+    c15EnvX.action = .entity (c15ΓX true).action.1 (c15ΓX true).action.2 ∧
+    c15EnvX.entities.get ("NS::Action", "view") = some ⟨[("Action", "grp")], [], []⟩ ∧
+    ¬ EnvOK (c15ΓX true) c15EnvX := by
+  have hg : c15EnvX.entities.get ("NS::Action", "view") = some ⟨[("Action", "grp")], [], []⟩ := by
+    simp [c15EnvX, c15EnvE, c15Ents, Entities.get]
+  refine ⟨by decide +kernel, by decide +kernel, by decide +kernel, isErr_eq (by decide +kernel), rfl, hg, ?_⟩
+  intro h
+  rcases (h.store _ _ hg).parents ("Action", "grp") (by simp) with hm | ⟨_, hs⟩
+  · simp [declOf, c15ΓX, c15ΓE, List.lookup] at hm
+  · exact absurd hs (by decide)
 
 /-! ## Non-vacuity: the hypotheses of the soundness theorem are met by a non-trivial expression -/
 
@@ -303,6 +700,6 @@ example : condOK true (c15Γ true) c15Good = .ok true ∧ condOK true (c15Γ fal
   constructor <;> decide +kernel
 
 example : (∃ b, eval c15Good c15Env = .ok (.bool b)) ∨ (∃ k, eval c15Good c15Env = .error k ∧ Allowed k) :=
-  C15_condition_sound_partial (c15Γ true) c15Env (c15Env_ok true) c15Good (by decide +kernel)
+  C15_condition_sound_partial (c15Γ true) c15Env (c15Env_ok true) (c15Env_actions true) c15Good (by decide +kernel)
 
 end CedarGo
